@@ -221,17 +221,29 @@ def wiring_sym(p):
         return None
     import symcooler.cli.load as M
     _intercept(M)
-    c1, c2 = sym_int("col_count", 3, ncols), sym_int("col_x", 3, ncols)
-    assume(c1 != c2)
-    a, b = concretize(c1), concretize(c2)
+    if p.get("move_ids"):
+        # the two bin-id fields are moved as well: every placement of the four fields over the first `idcols` columns
+        nc = p["idcols"]
+        vs = [sym_int(f"col_{nm}", 1, nc) for nm in ("count", "x", "bin1_id", "bin2_id")]
+        for i in range(4):
+            for j in range(i):
+                assume(vs[i] != vs[j])
+        a, b, ci, cj = (concretize(x) for x in vs)
+        idf = (f"bin1_id={ci}", f"bin2_id={cj}")
+    else:
+        c1, c2 = sym_int("col_count", 3, ncols), sym_int("col_x", 3, ncols)
+        assume(c1 != c2)
+        a, b = concretize(c1), concretize(c2)
+        ci, cj, idf = 1, 2, ()
     cover("non_monotone", a > b)
+    open(src, "w").write("\t".join(["0"] * ncols) + "\n")
     try:
         M.load.callback(bins_path=f"{sizes}:10", pixels_path=src, cool_path=scratch_file("c16w.cool"), format="coo", metadata=None, assembly=None,
-                        field=(f"count={a}", f"x={b}"), count_as_float=False, one_based=False, comment_char="#", input_copy_status="unique",
+                        field=(f"count={a}", f"x={b}") + idf, count_as_float=False, one_based=False, comment_char="#", input_copy_status="unique",
                         no_symmetric_upper=False, chunksize=100, mergebuf=None, max_merge=200, temp_dir=None, no_delete_temp=False,
                         storage_options=None, append=False)
     except _Stop as st:
-        ok, bound = _check_binding(st.usecols, st.names, {"bin1_id": 0, "bin2_id": 1, "count": a - 1, "x": b - 1})
+        ok, bound = _check_binding(st.usecols, st.names, {"bin1_id": ci - 1, "bin2_id": cj - 1, "count": a - 1, "x": b - 1})
         prove(ok, f"a field is read from a different column than the one the user asked for (names {st.names})")
         return ["bound"]
     prove(False, "loader did not reach the parser")
@@ -273,11 +285,13 @@ def wiring_real(p, inputs):
         return ["bound"]
     import cooler.cli.load as M
     a, b = inputs["col_count"], inputs["col_x"]
+    ci, cj = (inputs["col_bin1_id"], inputs["col_bin2_id"]) if p.get("move_ids") else (1, 2)
+    idf = (f"bin1_id={ci}", f"bin2_id={cj}") if p.get("move_ids") else ()
     recs = [dict(bin1_id=0, bin2_id=2, count=5, x=9), dict(bin1_id=1, bin2_id=3, count=4, x=3)]
-    _pairs_file(src, {"bin1_id": 0, "bin2_id": 1, "count": a - 1, "x": b - 1}, recs, ncols)
+    _pairs_file(src, {"bin1_id": ci - 1, "bin2_id": cj - 1, "count": a - 1, "x": b - 1}, recs, ncols)   # unused columns hold text (".")
     try:
         M.load.callback(bins_path=f"{sizes}:10", pixels_path=src, cool_path=out, format="coo", metadata=None, assembly=None,
-                        field=(f"count={a}", f"x={b}:dtype=int"), count_as_float=False, one_based=False, comment_char="#", input_copy_status="unique",
+                        field=(f"count={a}", f"x={b}:dtype=int") + idf, count_as_float=False, one_based=False, comment_char="#", input_copy_status="unique",
                         no_symmetric_upper=False, chunksize=100, mergebuf=None, max_merge=200, temp_dir=None, no_delete_temp=False,
                         storage_options=None, append=False)
     except Exception as e:  # noqa
@@ -506,7 +520,7 @@ CHECKS = [
           bounds=dict(quick="3 bins / 2 chromosomes, K<=2 pixels, both storage modes, names c0/c1 and all-digit names", thorough="K=3, variable bins"),
           stubs=("E6/E9: to_csv followed by read_csv is the identity on the selected columns (i-th name bound to i-th smallest column); "
                  "the real text path runs on every explored path",), timeout=1500, split_depth=6),
-    Check("field_wiring", lambda tier: ([dict(cmd="pairs", maxcol=5, xmin=6), dict(cmd="pairs", fixed_pos=[2, 3, 5, 6])] if tier == "quick" else [dict(cmd="pairs")]) + [dict(cmd="load")], wiring_sym, wiring_real, labels=("non_monotone",),
+    Check("field_wiring", lambda tier: ([dict(cmd="pairs", maxcol=5, xmin=6), dict(cmd="pairs", fixed_pos=[2, 3, 5, 6])] if tier == "quick" else [dict(cmd="pairs")]) + [dict(cmd="load"), dict(cmd="load", move_ids=True, idcols=5 if tier == "quick" else 7)], wiring_sym, wiring_real, labels=("non_monotone",),
           doc="cload pairs / load run up to the parser call with symbolic field numbers: under E6 every name is bound to the column the user asked for; "
               "every explored layout is then run end to end through the real command on a text file laid out that way",
           bounds=dict(all="7 columns; positional fields and one value field at any distinct column numbers (pairs); two value fields at any distinct columns (load)"),
